@@ -162,3 +162,265 @@ Proof.
     exists n. split; [exact Hn|]. apply filter_In. split; [exact Hin|].
     apply String.eqb_eq in Hname. apply String.eqb_eq. congruence.
 Qed.
+
+(* ------------------------------------------------------------------ properties preserved by the primitives *)
+(* Any graph property that add_node (for node types satisfying Q) and add_edge preserve is preserved by
+   the array / tree / router / connection builders. *)
+Section Preserve.
+  Variable P : graph -> Prop.
+  Variable Q : ntype -> Prop.
+  Hypothesis P_node : forall g n g', P g -> Q (n_type n) -> add_node g n = Ok g' -> P g'.
+  Hypothesis P_edge : forall g e g', P g -> add_edge g e = Ok g' -> P g'.
+
+  Lemma pres_array_node name t desc connect n g ij g' :
+    Q t -> P g -> add_array_node name t desc connect n g ij = Ok g' -> P g'.
+  Proof.
+    intros Hq Hg H. unfold add_array_node in H. destruct ij as [i j]. inv_bind H.
+    apply P_node in E; [|exact Hg|exact Hq].
+    assert (Ha0 : P a0).
+    { destruct ((0 <? i) && connect); [|inversion E0; subst; exact E]. inv_bind E0. eauto. }
+    destruct ((0 <? j) && connect); [|inversion H; subst; exact Ha0]. inv_bind H. eauto.
+  Qed.
+
+  Lemma pres_array g name arr t desc connect g' :
+    Q t -> P g -> add_nodes_as_array g name arr t desc connect = Ok g' -> P g'.
+  Proof.
+    intros Hq Hg H. unfold add_nodes_as_array in H.
+    destruct arr as [|m [|n [|x xs]]]; [discriminate| | |discriminate].
+    - destruct connect; [discriminate|]. eapply foldM_inv; [|exact Hg|exact H].
+      intros s x s' Hs Hx; cbv beta in Hx. eapply P_node; [exact Hs| |exact Hx]; exact Hq.
+    - eapply foldM_inv; [|exact Hg|exact H]. intros s x s' Hs Hx; cbv beta in Hx. eapply pres_array_node; eauto.
+  Qed.
+
+  Lemma pres_tree tree : forall g parent lvl desc connect g',
+    Q NRouter -> P g -> add_nodes_as_tree g parent tree lvl desc connect = Ok g' -> P g'.
+  Proof.
+    induction tree as [|t rest IH]; intros g parent lvl desc connect g' Hq Hg H; cbn [add_nodes_as_tree] in H.
+    - inversion H; subst; exact Hg.
+    - eapply foldM_inv; [|exact Hg|exact H]. intros s i s' Hs Hx. inv_bind Hx.
+      apply P_node in E; [|exact Hs|exact Hq].
+      assert (Ha0 : P a0).
+      { destruct (connect && (0 <? lvl)); [|inversion E0; subst; exact E]. inv_bind E0. eauto. }
+      eapply IH; eauto.
+  Qed.
+
+  Lemma pres_router g r g' : Q NRouter -> P g -> create_router g r = Ok g' -> P g'.
+  Proof.
+    intros Hq Hg H. unfold create_router in H.
+    destruct (rt_array r) as [[|m [|n [|x xs]]]|], (rt_tree r) as [tree|]; try discriminate.
+    - eapply pres_array; [exact Hq|exact Hg|exact H].
+    - eapply pres_tree; [exact Hq|exact Hg|exact H].
+    - eapply P_node; [exact Hg| |exact H]; exact Hq.
+  Qed.
+
+  Lemma pres_prot_edges (f : list Z -> edge) idxs : forall g g', P g -> foldM (fun g i => add_edge g (f i)) idxs g = Ok g' -> P g'.
+  Proof. intros g g' Hg H. eapply foldM_inv; [|exact Hg|exact H]. intros s i s' Hs Hx; cbv beta in Hx. eauto. Qed.
+
+  Lemma pres_endpoint g e g' : Q NEndpoint -> Q NNi -> P g -> create_endpoint g e = Ok g' -> P g'.
+  Proof.
+    intros Hq1 Hq2 Hg H. unfold create_endpoint in H. cbv zeta in H. destruct (ep_array e) as [arr|].
+    - inv_bind H. apply pres_array in E; [|exact Hq1|exact Hg]. apply pres_array in E0; [|exact Hq2|exact E].
+      assert (Ha1 : P a1).
+      { destruct (ep_is_sbr e); [|inversion E1; subst; exact E0]. eapply pres_prot_edges; [exact E0|exact E1]. }
+      destruct (ep_is_mgr e); [|inversion H; subst; exact Ha1]. eapply pres_prot_edges; [exact Ha1|exact H].
+    - inv_bind H. eapply P_node in E; [|exact Hg|exact Hq1]. eapply P_node in E0; [|exact E|exact Hq2].
+      assert (Ha1 : P a1).
+      { destruct (ep_is_sbr e); [|inversion E1; subst; exact E0]. eauto. }
+      destruct (ep_is_mgr e); [|inversion H; subst; exact Ha1]. eauto.
+  Qed.
+
+  Lemma pres_connection d g c g' : P g -> create_connection d g c = Ok g' -> P g'.
+  Proof.
+    intros Hg H. unfold create_connection in H. inv_bind H.
+    eapply foldM_inv; [|exact Hg|exact H]. intros s p s' Hs Hx. inv_bind Hx. eauto.
+  Qed.
+
+  Theorem build_preserves d g : Q NRouter -> Q NEndpoint -> Q NNi -> P g_empty -> build d = Ok g -> P g.
+  Proof.
+    intros Q1 Q2 Q3 H0 H. unfold build in H. inv_bind H.
+    eapply foldM_inv; [| |exact H]; [intros; eapply pres_connection; eauto|].
+    eapply foldM_inv; [| |exact E0]; [intros; eapply pres_endpoint; eauto|].
+    eapply foldM_inv; [| |exact E]; [intros; eapply pres_router; eauto|exact H0].
+  Qed.
+End Preserve.
+
+(* node names are unique in every built graph: a duplicate name is rejected *)
+Definition names (g : graph) : list string := map n_name (g_nodes g).
+
+Lemma has_node_false g x : has_node g x = false -> ~ In x (names g).
+Proof.
+  unfold has_node, find_node, names. intros H Hin. apply in_map_iff in Hin. destruct Hin as (n & <- & Hn).
+  destruct (find _ (g_nodes g)) eqn:F; [discriminate|].
+  pose proof (find_none _ _ F n Hn) as Hf. cbv beta in Hf. rewrite (proj2 (String.eqb_eq _ _) eq_refl) in Hf. discriminate.
+Qed.
+
+Lemma NoDup_snoc {A} (l : list A) x : NoDup l -> ~ In x l -> NoDup (l ++ [x]).
+Proof.
+  intros Hn Hx. induction Hn as [|y l Hy Hn IH]; cbn; [constructor; [tauto|constructor]|].
+  constructor.
+  - rewrite in_app_iff. cbn. intros [H|[H|[]]]; [tauto|]. subst. apply Hx. left. reflexivity.
+  - apply IH. intros H. apply Hx. right. exact H.
+Qed.
+
+Theorem build_nodup d g : build d = Ok g -> NoDup (names g).
+Proof.
+  apply (build_preserves (fun g => NoDup (names g)) (fun _ => True)); try exact I.
+  - intros g0 n g' Hn _ H. unfold add_node in H. destruct (has_node g0 (n_name n)) eqn:Hh; [discriminate|].
+    inversion H; subst. unfold names. cbn. rewrite map_app. cbn. apply NoDup_snoc; [exact Hn|].
+    apply has_node_false. exact Hh.
+  - intros g0 e g' Hn H. apply add_edge_spec in H. destruct H as (-> & _). exact Hn.
+  - constructor.
+Qed.
+
+(* ------------------------------------------------------------------ which nodes an (unconnected) array adds *)
+Definition mk_arr_node (name : string) (t : ntype) (desc : string) (idx : list Z) : node :=
+  {| n_name := full_name name idx; n_type := t; n_arr := Some idx; n_lvl := None; n_desc := desc |}.
+
+Lemma foldM_ext {A S} (f f' : S -> A -> res S) l : (forall s x, f s x = f' s x) -> forall s, foldM f l s = foldM f' l s.
+Proof. intros H. induction l as [|x xs IH]; intros s; cbn; [reflexivity|]. rewrite H. destruct (f' s x); cbn; auto. Qed.
+
+Lemma foldM_add_node_spec {A} (mk : A -> node) l : forall g g',
+  foldM (fun g i => add_node g (mk i)) l g = Ok g' ->
+  g_nodes g' = g_nodes g ++ map mk l /\ g_edges g' = g_edges g.
+Proof.
+  induction l as [|x xs IH]; intros g g' H; cbn [foldM] in H.
+  - inversion H; subst. cbn. rewrite app_nil_r. auto.
+  - inv_bind H. destruct (IH _ _ H) as (Hn & He). unfold add_node in E.
+    destruct (has_node g (n_name (mk x))); [discriminate|]. inversion E; subst a; clear E. cbn in Hn, He.
+    rewrite Hn, He, <- app_assoc. cbn. auto.
+Qed.
+
+Lemma array_node_plain name t desc n g i j :
+  add_array_node name t desc false n g (i, j) = add_node g (mk_arr_node name t desc [i; j]).
+Proof.
+  unfold add_array_node. rewrite !andb_false_r. unfold mk_arr_node.
+  destruct (add_node g _); cbn; reflexivity.
+Qed.
+
+Lemma pairs_lists {B} (h : list Z -> B) (L1 L2 : list Z) :
+  map (fun ij : Z * Z => h [fst ij; snd ij]) (flat_map (fun i => map (fun j => (i, j)) L2) L1) =
+  map h (flat_map (fun i => map (fun j => [i; j]) L2) L1).
+Proof. induction L1 as [|i L1 IH]; cbn; [reflexivity|]. rewrite !map_app, !map_map, IH. reflexivity. Qed.
+
+Lemma array_nodes g name arr t desc g' :
+  add_nodes_as_array g name arr t desc false = Ok g' ->
+  g_nodes g' = g_nodes g ++ map (mk_arr_node name t desc) (ep_indices arr) /\ g_edges g' = g_edges g.
+Proof.
+  unfold add_nodes_as_array, ep_indices. destruct arr as [|m [|n [|x xs]]]; try discriminate.
+  - intros H. apply foldM_add_node_spec in H. rewrite map_map. exact H.
+  - intros H.
+    rewrite (foldM_ext _ (fun g ij => add_node g (mk_arr_node name t desc [fst ij; snd ij]))) in H
+      by (intros s [i j]; apply array_node_plain).
+    apply foldM_add_node_spec in H. rewrite pairs_lists in H. exact H.
+Qed.
+
+Lemma prot_edges_nodes (f : list Z -> edge) idxs : forall g g',
+  foldM (fun g i => add_edge g (f i)) idxs g = Ok g' -> g_nodes g' = g_nodes g.
+Proof.
+  induction idxs as [|i l IH]; intros g g' H; cbn [foldM] in H; [inversion H; reflexivity|].
+  inv_bind H. apply add_edge_spec in E. destruct E as (-> & _). apply IH in H. exact H.
+Qed.
+
+(* ------------------------------------------------------------------ endpoints and their interfaces *)
+Definition ep_nm (base : string) (arr : option (list Z)) : string :=
+  match arr with Some idx => full_name base idx | None => base end.
+
+(* every network-interface node is named after its descriptor and index, and the endpoint node with the
+   same descriptor and index exists; there are as many interfaces as endpoints *)
+Definition ni_wf (g : graph) : Prop :=
+  (forall n, In n (g_nodes g) -> n_type n = NNi ->
+     n_name n = ep_nm (n_desc n +++ "_ni") (n_arr n) /\
+     exists e, In e (g_nodes g) /\ n_type e = NEndpoint /\ n_name e = ep_nm (n_desc n) (n_arr n) /\
+               n_desc e = n_desc n /\ n_arr e = n_arr n) /\
+  length (nodes_of_type g NNi) = length (nodes_of_type g NEndpoint).
+
+Lemma filter_routers_only (extra : list node) t :
+  (forall n, In n extra -> n_type n = NRouter) -> t <> NRouter ->
+  filter (fun n => ntype_eqb (n_type n) t) extra = [].
+Proof.
+  intros Hx Ht. induction extra as [|y ys IH]; cbn; [reflexivity|].
+  rewrite (Hx y (or_introl eq_refl)). destruct t; try congruence; cbn; apply IH; intros; apply Hx; right; assumption.
+Qed.
+
+Lemma ni_wf_grow g g' extra :
+  g_nodes g' = g_nodes g ++ extra -> (forall n, In n extra -> n_type n = NRouter) -> ni_wf g -> ni_wf g'.
+Proof.
+  intros Hn Hx (Hw & Hc). split.
+  - intros n Hin Ht. rewrite Hn in Hin. apply in_app_iff in Hin. destruct Hin as [Hin|Hin].
+    + destruct (Hw n Hin Ht) as (H1 & e & He & H2). split; [exact H1|]. exists e. split; [rewrite Hn; apply in_app_iff; auto|exact H2].
+    + rewrite (Hx n Hin) in Ht. discriminate.
+  - unfold nodes_of_type. rewrite Hn, !filter_app, !app_length.
+    pose proof (fun t => filter_routers_only extra t Hx) as Hz.
+    rewrite !Hz by discriminate. cbn. unfold nodes_of_type in Hc. lia.
+Qed.
+
+Definition mk_ep_node (nm : string) (a : option (list Z)) : node :=
+  {| n_name := ep_nm nm a; n_type := NEndpoint; n_arr := a; n_lvl := None; n_desc := nm |}.
+Definition mk_ni_node (nm : string) (a : option (list Z)) : node :=
+  {| n_name := ep_nm (nm +++ "_ni") a; n_type := NNi; n_arr := a; n_lvl := None; n_desc := nm |}.
+
+Lemma filter_map_all {A} (f : A -> node) t L : (forall x, n_type (f x) = t) ->
+  filter (fun n => ntype_eqb (n_type n) t) (map f L) = map f L.
+Proof. intros H. induction L as [|x xs IH]; cbn; [reflexivity|]. rewrite H, IH. destruct t; reflexivity. Qed.
+Lemma filter_map_none {A} (f : A -> node) t t' L : (forall x, n_type (f x) = t') -> t' <> t ->
+  filter (fun n => ntype_eqb (n_type n) t) (map f L) = [].
+Proof. intros H Hne. induction L as [|x xs IH]; cbn; [reflexivity|]. rewrite H, IH. destruct t, t'; try congruence; reflexivity. Qed.
+
+Lemma ni_wf_add_eps g g' nm L :
+  g_nodes g' = (g_nodes g ++ map (mk_ep_node nm) L) ++ map (mk_ni_node nm) L -> ni_wf g -> ni_wf g'.
+Proof.
+  intros Hn (Hw & Hc). split.
+  - intros n Hin Ht. rewrite Hn in Hin. rewrite !in_app_iff in Hin. destruct Hin as [[Hin|Hin]|Hin].
+    + destruct (Hw n Hin Ht) as (H1 & e & He & H2). split; [exact H1|]. exists e.
+      split; [rewrite Hn, !in_app_iff; auto|exact H2].
+    + apply in_map_iff in Hin. destruct Hin as (a & <- & _). discriminate.
+    + apply in_map_iff in Hin. destruct Hin as (a & <- & Ha). split; [reflexivity|].
+      exists (mk_ep_node nm a). split; [rewrite Hn, !in_app_iff; left; right; apply in_map; exact Ha|].
+      cbn. auto.
+  - unfold nodes_of_type in *. rewrite Hn, !filter_app, !app_length.
+    rewrite (filter_map_all (mk_ni_node nm) NNi), (filter_map_all (mk_ep_node nm) NEndpoint) by reflexivity.
+    rewrite (filter_map_none (mk_ep_node nm) NNi NEndpoint), (filter_map_none (mk_ni_node nm) NEndpoint NNi)
+      by (reflexivity || discriminate).
+    rewrite !map_length. cbn. lia.
+Qed.
+
+Lemma ni_wf_same_nodes g g' : g_nodes g' = g_nodes g -> ni_wf g -> ni_wf g'.
+Proof. intros H. apply (ni_wf_grow g g' []); [rewrite app_nil_r; exact H|intros n []]. Qed.
+
+Lemma ni_wf_endpoint g e g' : ni_wf g -> create_endpoint g e = Ok g' -> ni_wf g'.
+Proof.
+  intros Hg H. unfold create_endpoint in H. cbv zeta in H. destruct (ep_array e) as [arr|].
+  - inv_bind H. apply array_nodes in E. apply array_nodes in E0. destruct E as (N1 & _). destruct E0 as (N2 & _).
+    assert (W1 : ni_wf a0).
+    { apply (ni_wf_add_eps g a0 (ep_name e) (map Some (ep_indices arr))); [|exact Hg].
+      rewrite N2, N1, !map_map. reflexivity. }
+    assert (Ha1 : ni_wf a1).
+    { destruct (ep_is_sbr e); [|inversion E1; subst; exact W1].
+      apply prot_edges_nodes in E1. eapply ni_wf_same_nodes; eauto. }
+    destruct (ep_is_mgr e); [|inversion H; subst; exact Ha1].
+    apply prot_edges_nodes in H. eapply ni_wf_same_nodes; eauto.
+  - inv_bind H.
+    assert (W1 : ni_wf a0).
+    { apply (ni_wf_add_eps g a0 (ep_name e) [None]); [|exact Hg].
+      unfold add_node in E, E0. destruct (has_node g _); [discriminate|]. inversion E; subst a; clear E.
+      cbn in E0. destruct (has_node _ _); [discriminate|]. inversion E0; subst a0. cbn. reflexivity. }
+    assert (Ha1 : ni_wf a1).
+    { destruct (ep_is_sbr e); [|inversion E1; subst; exact W1].
+      apply add_edge_spec in E1. destruct E1 as (-> & _). eapply ni_wf_same_nodes; [|exact W1]. reflexivity. }
+    destruct (ep_is_mgr e); [|inversion H; subst; exact Ha1].
+    apply add_edge_spec in H. destruct H as (-> & _). eapply ni_wf_same_nodes; [|exact Ha1]. reflexivity.
+Qed.
+
+Theorem build_ni_wf d g : build d = Ok g -> ni_wf g.
+Proof.
+  intros H. unfold build in H. inv_bind H.
+  assert (Pn : forall g0 n g', ni_wf g0 -> n_type n = NRouter -> add_node g0 n = Ok g' -> ni_wf g').
+  { intros g0 n g' Hw Ht Ha. unfold add_node in Ha. destruct (has_node g0 _); [discriminate|]. inversion Ha; subst.
+    apply (ni_wf_grow g0 _ [n]); [reflexivity| |exact Hw]. intros x [<-|[]]. exact Ht. }
+  assert (Pe : forall g0 e g', ni_wf g0 -> add_edge g0 e = Ok g' -> ni_wf g').
+  { intros g0 e g' Hw Ha. apply add_edge_spec in Ha. destruct Ha as (-> & _). eapply ni_wf_same_nodes; [|exact Hw]. reflexivity. }
+  eapply foldM_inv; [| |exact H]; [intros; eapply (pres_connection ni_wf); eauto|].
+  eapply foldM_inv; [| |exact E0]; [intros; eapply ni_wf_endpoint; eauto|].
+  eapply foldM_inv; [| |exact E]; [intros; eapply (pres_router ni_wf (fun t => t = NRouter)); eauto|].
+  split; [intros n []|reflexivity].
+Qed.
